@@ -417,8 +417,41 @@ class Sanitiser:
     notes: List[str]
 
 
-def sanitiser_of(idx: PyIndex, fi: FuncInfo) -> Optional[Sanitiser]:
-    """Read a text-preparing helper: re.compile(<literal>).sub(<literal>, text) and str.replace(<lit>, <lit>) steps."""
+def _const_pattern(a0: ast.AST, consts: Dict[str, object]) -> Optional[str]:
+    """A regular expression given as a literal, or assembled from literals and `re.escape(<parameter with a known constant value>)`."""
+    import re as _re
+    if isinstance(a0, ast.Constant) and isinstance(a0.value, str):
+        return a0.value
+    if isinstance(a0, (ast.BinOp, ast.JoinedStr)):
+        out = []
+        for p_ in flatten_concat(a0):
+            core = p_.value if isinstance(p_, ast.FormattedValue) else p_
+            if isinstance(core, ast.Constant) and isinstance(core.value, str):
+                out.append(core.value)
+            elif isinstance(core, ast.Call) and norm(core.func) in ('re.escape', 'escape') and len(core.args) == 1:
+                a = core.args[0]
+                v = a.value if isinstance(a, ast.Constant) else (consts.get(a.id) if isinstance(a, ast.Name) else None)
+                if not isinstance(v, str):
+                    return None
+                out.append(_re.escape(v))
+            elif isinstance(core, ast.Name) and isinstance(consts.get(core.id), str):
+                out.append(consts[core.id])
+            else:
+                return None
+        return ''.join(out)
+    return None
+
+
+def sanitiser_of(idx: PyIndex, fi: FuncInfo, consts: Optional[Dict[str, object]] = None) -> Optional[Sanitiser]:
+    """Read a text-preparing helper: re.compile(<literal>).sub(<literal>, text) and str.replace(<lit>, <lit>) steps.  `consts` gives the constant values of
+    parameters at the call site under consideration (parameters not named take their constant defaults)."""
+    consts = dict(consts or {})
+    if isinstance(fi.node, ast.FunctionDef):
+        a_ = fi.node.args
+        names_ = [x.arg for x in a_.args]
+        for pn, d in zip(names_[len(names_) - len(a_.defaults):], a_.defaults):
+            if isinstance(d, ast.Constant):
+                consts.setdefault(pn, d.value)
     esc: Dict[str, str] = {}
     removes: Set[str] = set()
     notes: List[str] = []
@@ -431,6 +464,8 @@ def sanitiser_of(idx: PyIndex, fi: FuncInfo) -> Optional[Sanitiser]:
             a0 = n.value.args[0]
             if isinstance(a0, ast.Constant):
                 pats[n.targets[0].id] = a0.value
+            elif _const_pattern(a0, consts) is not None:
+                pats[n.targets[0].id] = _const_pattern(a0, consts)
             elif isinstance(a0, ast.IfExp) and isinstance(a0.body, ast.Constant) and isinstance(a0.orelse, ast.Constant):
                 # the pattern depends on a mode flag: only what every mode rewrites is guaranteed
                 pats[n.targets[0].id] = a0.body.value
